@@ -15,15 +15,20 @@ BUF, RTR_COPY = 0x60240000, 0x70ff0000
 
 # ====================================================================== generator (i): sets of trees
 class TreeGen(object):
-    def __init__(self, rng, w, h, malformed):
-        self.rng, self.w, self.h, self.vid, self.bad = rng, w, h, 0, malformed
+    """Random trees on an unbounded grid.  `avoid` is the set of chips a new node should not use (chips of the
+    tree under construction and of earlier trees with the same key and mask): respected except with a small
+    probability, so that most coincidences of trees on a chip are the deliberate ones."""
+
+    def __init__(self, rng, malformed):
+        self.rng, self.vid, self.bad = rng, 0, malformed
+        self.avoid = set()
 
     def leaf(self):
         self.vid += 1
         return ["L", self.vid]
 
     def neighbour(self, chip, d):
-        return [(chip[0] + VEC[d][0]) % self.w, (chip[1] + VEC[d][1]) % self.h]
+        return [chip[0] + VEC[d][0], chip[1] + VEC[d][1]]
 
     def kids(self, chip, depth, style):
         rng = self.rng
@@ -33,9 +38,15 @@ class TreeGen(object):
         for _ in range(n):
             u = rng.random()
             if depth > 0 and u < (0.8 if style == "chain" else 0.5):
-                d = rng.randrange(6)
-                ks.append([d, self.node(self.neighbour(chip, d), depth - 1, style)])
-            elif u < 0.8:
+                ds = [d for d in range(6) if tuple(self.neighbour(chip, d)) not in self.avoid
+                      and min(self.neighbour(chip, d)) >= 0]
+                if rng.random() < 0.04:
+                    ds = [d for d in range(6) if min(self.neighbour(chip, d)) >= 0]
+                if ds:
+                    d = rng.choice(ds)
+                    ks.append([d, self.node(self.neighbour(chip, d), depth - 1, style)])
+                    continue
+            if u < 0.8:
                 ks.append([6 + rng.randrange(18), self.leaf()])
             elif u < 0.9:
                 ks.append([None, self.leaf()])
@@ -46,6 +57,7 @@ class TreeGen(object):
         return ks
 
     def node(self, chip, depth, style):
+        self.avoid.add(tuple(chip))
         return ["N", list(chip), self.kids(chip, depth, style)]
 
 
@@ -59,19 +71,26 @@ def nodes_of(t, acc=None):
 
 
 def gen_trees(rng, malformed=False):
-    w, h = rng.choice([(2, 2), (3, 2), (3, 3), (4, 4)])
-    g = TreeGen(rng, w, h, malformed)
-    kms = [[rng.choice([0, 1, 0xffff0000, 0xdeadbeef, 5]), rng.choice([0xffffffff, 0xffff0000, 0, 0xff])]
-           for _ in range(rng.choice([1, 1, 2, 3]))]
+    g = TreeGen(rng, malformed)
+    size = rng.choice([2, 3, 4, 6])
+    occupied = {}
+    masks = [0xffffffff, 0xffff0000, 0, 0xff]
+    kms = []
     n_nets = rng.choice([1, 2, 2, 3, 4, 5, 6])
     routes, net_keys, by_km = [], [], {}
     share = rng.choice(["none", "equal", "equal", "different", "mixed"])
     for i in range(n_nets):
         net = 100 + 7 * i
-        km = rng.choice(kms)
+        if kms and rng.random() < (0.1 if share == "none" else 0.75):
+            km = rng.choice(kms)                    # the key and mask of an earlier net
+        else:
+            km = [rng.choice([0, 1, 0xffff0000, 0xdeadbeef, 5]) + 16 * i, rng.choice(masks)]
+            if rng.random() < 0.2 and kms:
+                km = [kms[0][0], km[1] ^ 1]         # same key, other mask
+            kms.append(km)
         style = rng.choice(["chain", "bushy", "any", "any"])
         prev = by_km.get(tuple(km), [])
-        if prev and share != "none" and rng.random() < 0.7:
+        if prev and share != "none" and rng.random() < 0.85:
             # a second source of the same key: a fresh path that joins a copy of a subtree of an earlier tree
             src = rng.choice(nodes_of(rng.choice(prev)))
             sub = copy.deepcopy(src)
@@ -98,16 +117,25 @@ def gen_trees(rng, malformed=False):
                     if k[0] is not None and k[1][0] == "L":
                         victim[2].append([k[0], g.leaf()])                  # same route, other vertex
             # path leading into the copy: each step chosen so that it arrives at the right chip
+            g.avoid = set(occupied.get(tuple(km), ()))
             tree = sub
             for _ in range(rng.choice([0, 1, 1, 2, 3])):
-                d = rng.randrange(6)
-                parent = [(tree[1][0] - VEC[d][0]) % w, (tree[1][1] - VEC[d][1]) % h]
+                ds = [d for d in range(6)
+                      if (tree[1][0] - VEC[d][0], tree[1][1] - VEC[d][1]) not in g.avoid
+                      and min(tree[1][0] - VEC[d][0], tree[1][1] - VEC[d][1]) >= 0]
+                if not ds:
+                    break
+                d = rng.choice(ds)
+                parent = [tree[1][0] - VEC[d][0], tree[1][1] - VEC[d][1]]
+                g.avoid.add(tuple(parent))
                 extra = g.kids(parent, 0, "any") if rng.random() < 0.3 else []
                 kids = extra + [[d, tree]]
                 rng.shuffle(kids)
                 tree = ["N", parent, kids]
         else:
-            tree = g.node([rng.randrange(w), rng.randrange(h)], rng.choice([0, 1, 2, 3, 4, 6]), style)
+            g.avoid = set(occupied.get(tuple(km), ())) if rng.random() < 0.9 else set()
+            tree = g.node([rng.randrange(size), rng.randrange(size)], rng.choice([0, 1, 2, 3, 4, 6]), style)
+        occupied.setdefault(tuple(km), set()).update(tuple(n[1]) for n in nodes_of(tree))
         by_km.setdefault(tuple(km), []).append(tree)
         routes.append([net, tree])
         net_keys.append([net, km])
@@ -118,6 +146,7 @@ def gen_trees(rng, malformed=False):
         net, tree = routes[rng.randrange(len(routes))]
         ns = nodes_of(tree)
         victim = rng.choice(ns)
+        g.avoid = set()
         sub = g.node(g.neighbour(victim[1], 0), 1, "any")
         if kind == "none-subtree":
             victim[2].insert(rng.randint(0, len(victim[2])), [None, sub])
@@ -171,14 +200,14 @@ def gen_chip(rng, style):
             else:
                 app = rng.randrange(256)
                 for i in range(pos, pos + size):
-                    if rng.random() < (0.9 if size < 20 else 0.05):
+                    if rng.random() < (0.7 if size < 10 else 0.02):
                         listed.append([i, [rng.choice([0, i + 1]), app | (rng.randrange(16) << 8),
                                            rng.getrandbits(24), rand_word(rng), rand_word(rng)]])
             pos += size
         if style == "shuffled":
             rng.shuffle(free)
     if style == "full":
-        for i in rng.sample(range(1, 1024), 30):
+        for i in rng.sample(range(1, 1024), 12):
             listed.append([i, [0, rng.randrange(256), rng.getrandbits(24), rand_word(rng), rand_word(rng)]])
         listed.sort()
     dflt = [rng.choice([0, 7]), rng.choice([0, 0xffff, 66]), rng.choice([0, 0xffffff, rng.getrandbits(24)]),
@@ -556,11 +585,16 @@ def run(chk, args):
         try:
             header = ("From Coq Require Import ZArith List. Import ListNotations. Open Scope Z_scope.\n"
                       "Require Import Rig.Model.Base Rig.Model.Tables Rig.Model.Router.\n")
-            big = [i for i, c in enumerate(cases) if c["kind"] == "load"
-                   and sum(len(es) for _, es in c["tables"]) > 200]
-            order = [i for i in range(len(cases)) if i not in set(big)]
-            vals = dict(zip(order, chk.coq_eval(header, [coq_case(cases[i]) for i in order], shard=60)))
-            vals.update(zip(big, chk.coq_eval(header, [coq_case(cases[i]) for i in big], shard=1, name="big")))
+            groups = {"trees": ([], 80), "load": ([], 16), "big": ([], 1)}
+            for i, c in enumerate(cases):
+                g = "trees" if c["kind"] == "trees" else \
+                    "big" if sum(len(es) for _, es in c["tables"]) > 200 else "load"
+                groups[g][0].append(i)
+            vals = {}
+            for g, (idx, shard) in groups.items():
+                if idx:
+                    vals.update(zip(idx, chk.coq_eval(header, [coq_case(cases[i]) for i in idx],
+                                                      shard=shard, name=g)))
             bad = 0
             for i, (c, o) in enumerate(zip(cases, outs)):
                 v = vals[i]
@@ -590,7 +624,7 @@ def run(chk, args):
         except RuntimeError as e:
             chk.oblige("correspondence:model-evaluates", False, str(e))
     chk.coverage["rule"] = (
-        "(i) random sets of 1-6 routing trees on 2x2..4x4 tori (chains, bushy trees, leaves with core routes, "
+        "(i) random sets of 1-6 routing trees rooted in a 2x2..6x6 area (chains, bushy trees, leaves with core routes, "
         "link routes and no route, repeated routes), nets sharing 1-3 (key, mask) pairs, later trees joining a copy "
         "of an earlier subtree unchanged or with a different fork; every 8th case malformed; "
         "(ii) loads of 0..60 entries (plus tables of 0, 1, 1022, 1023, 1024, 1025 entries) with random subsets of the "
